@@ -223,3 +223,77 @@ Example names_free_examples :
                     token_type_eqb (word_type w) TT_NAME)
     ["x"; "_"; "Print"; "END"; "number"; "eof"; "name"; "mark"; "error"; "unknown"; "literal_string"; "h"; "Hue"; "a_1"; "If"] = true.
 Proof. vm_compute. reflexivity. Qed.
+
+(* ---------- quoted strings ---------- *)
+(* a text without a double quote *)
+Fixpoint no_quote (s : string) : bool :=
+  match s with EmptyString => true | String c r => negb (chr_eq c quote) && no_quote r end.
+Definition dq : string := String (ascii_of_nat quote) EmptyString.
+
+Lemma chr_eq_dq : chr_eq (ascii_of_nat quote) quote = true.
+Proof. reflexivity. Qed.
+
+Lemma last_quote_none r : no_quote r = true -> str_last_quote r = None.
+Proof.
+  induction r as [|c r IH]; cbn [no_quote str_last_quote]; intros H; [reflexivity|].
+  apply andb_true_iff in H. destruct H as [Hc Hr]. rewrite (IH Hr). apply negb_true_iff in Hc. rewrite Hc. reflexivity.
+Qed.
+
+Lemma last_quote_found s : forall r, no_quote r = true ->
+  str_last_quote (String.append s (String (ascii_of_nat quote) r)) = Some (String.append s dq, r).
+Proof.
+  induction s as [|c s IH]; intros r Hr; cbn [String.append str_last_quote].
+  - rewrite (last_quote_none r Hr). rewrite chr_eq_dq. reflexivity.
+  - rewrite (IH r Hr). reflexivity.
+Qed.
+
+Lemma first_unescaped_shape s : forall r prev, no_quote s = true -> no_quote r = true ->
+  str_first_unescaped (String.append s (String (ascii_of_nat quote) r)) prev = Some (String.append s dq, r) \/
+  str_first_unescaped (String.append s (String (ascii_of_nat quote) r)) prev = None.
+Proof.
+  induction s as [|c s IH]; intros r prev Hs Hr; cbn [String.append str_first_unescaped].
+  - rewrite chr_eq_dq. destruct prev; cbn [negb andb].
+    + right. (* escaped, and no further quote *)
+      assert (H : forall t p, no_quote t = true -> str_first_unescaped t p = None).
+      { clear. induction t as [|c t IH]; intros p H; cbn [str_first_unescaped no_quote] in *; [reflexivity|].
+        apply andb_true_iff in H. destruct H as [Hc Ht]. apply negb_true_iff in Hc. rewrite Hc. cbn [andb]. rewrite (IH _ Ht). reflexivity. }
+      rewrite (H r _ Hr). reflexivity.
+    + left. reflexivity.
+  - cbn [no_quote] in Hs. apply andb_true_iff in Hs. destruct Hs as [Hc Hs']. apply negb_true_iff in Hc. rewrite Hc. cbn [andb].
+    destruct (IH r (chr_eq c backslash) Hs' Hr) as [E|E]; rewrite E; [left|right]; reflexivity.
+Qed.
+
+(* a quoted text without a double quote inside, followed on its line by text without a double
+   quote, is one string token ... *)
+Theorem quoted_string_is_one_token s r : no_quote s = true -> no_quote r = true ->
+  alt_string (String.append dq (String.append s (String (ascii_of_nat quote) r))) = Some (String.append dq (String.append s dq), r).
+Proof.
+  intros Hs Hr. unfold dq at 1. cbn [String.append alt_string]. rewrite chr_eq_dq.
+  destruct (first_unescaped_shape s r false Hs Hr) as [E|E]; rewrite E; [reflexivity|].
+  rewrite (last_quote_found s r Hr). reflexivity.
+Qed.
+
+Lemma unescape_no_quote s : no_quote s = true -> unescape_quotes s = s.
+Proof.
+  induction s as [|a s IH]; intros H; [reflexivity|].
+  cbn [no_quote] in H. apply andb_true_iff in H. destruct H as [Ha Hs].
+  destruct s as [|b s']; [reflexivity|].
+  cbn [unescape_quotes]. cbn [no_quote] in Hs. apply andb_true_iff in Hs. destruct Hs as [Hb Hs'].
+  apply negb_true_iff in Hb. rewrite Hb, andb_false_r.
+  f_equal. apply IH. cbn [no_quote]. rewrite Hb, Hs'. reflexivity.
+Qed.
+
+Lemma drop_last_cons c t : t <> EmptyString -> drop_last (String c t) = String c (drop_last t).
+Proof. destruct t; [contradiction|reflexivity]. Qed.
+
+Lemma drop_last_app s : drop_last (String.append s dq) = s.
+Proof.
+  induction s as [|c s IH]; [reflexivity|]. cbn [String.append].
+  rewrite drop_last_cons; [rewrite IH; reflexivity|]. destruct s; discriminate.
+Qed.
+
+(* ... whose content is exactly the text between the quotes *)
+Theorem quoted_string_content s : no_quote s = true -> string_content (String.append dq (String.append s dq)) = s.
+Proof.
+  intros Hs. unfold dq at 1. cbn [String.append string_content]. rewrite drop_last_app. apply unescape_no_quote. exact Hs.
+Qed.
